@@ -150,6 +150,8 @@ CURATED_GAS = [
     'OC(=O)C(=O)O', 'CC(=O)OC(C)=O', 'OO', 'COO',
     # alkynes
     'CC#CC', 'C#CC=C',
+    # hydrogen itself (centre patterns whose centre atom is H)
+    '[H][H]', '[H]',
     # one molecule / mixture reaching a correction name through two scheme entries
     r'C/C=C\CCC=C(C)C', 'CC(C)C(C)CCCCC(C)(C)CC', 'CCC(C)(C)C.CC(C)C(C)C',
     # radical centres next to substituted double bonds
